@@ -23,6 +23,9 @@ func variants(mode string) []struct {
 			RPB: sdk.NewCoins(mc.C("eth", 2)), Total: sdk.NewCoins(mc.C("eth", 4)), Mode: mode}, 6, 8},
 		{Variant{Name: "exact-and-remainder", Farmers: []string{"A", "B"}, StakeAmts: []int64{1, 2},
 			RPB: sdk.NewCoins(mc.C("eth", 2), mc.C("btc", 3)), Total: sdk.NewCoins(mc.C("eth", 4), mc.C("btc", 10)), Mode: mode}, 6, 8},
+		// heights are the keys of the active-pool queue: a chain starting at 252 ends this pool at 255 / 256
+		{Variant{Name: "creator-ops-at-height-252", Farmers: []string{"A", "B"}, StakeAmts: []int64{1},
+			RPB: sdk.NewCoins(mc.C("eth", 3)), Total: sdk.NewCoins(mc.C("eth", 10)), Creator: true, Mode: mode, InitialHeight: 252}, 5, 7},
 		{Variant{Name: "two-denoms-future-start", Farmers: []string{"A", "B"}, StakeAmts: []int64{2, 3},
 			RPB: sdk.NewCoins(mc.C("eth", 2), mc.C("btc", 3)), Total: sdk.NewCoins(mc.C("eth", 11), mc.C("btc", 10)),
 			StartDelta: 2, Creator: true, BigStake: true, Mode: mode}, 5, 7},
